@@ -2,6 +2,7 @@ package main
 
 import (
 	"fmt"
+	"go/token"
 	"go/types"
 	"strings"
 
@@ -728,6 +729,47 @@ func ruleTxFn(c *Ctx, rule string) {
 				}
 			}
 			return false
+		}
+		if strings.HasPrefix(rule, "C16.") {
+			// the context fn runs with: where it is what a setTx call answered, every context kind's setTx must
+			// answer with the context it was called on — a system context that answers with the ordinary context
+			// it wraps runs fn (and the pre-commit actions) without system rights
+			for _, b := range inner.Blocks {
+				for _, in := range b.Instrs {
+					ci, isCI := in.(ssa.CallInstruction)
+					if !isCI || !isFnCall(in) || len(ci.Common().Args) != 1 {
+						continue
+					}
+					arg := ci.Common().Args[0]
+					if ld, isLd := arg.(*ssa.UnOp); isLd && ld.Op == token.MUL {
+						if cell, isAl := ld.X.(*ssa.Alloc); isAl {
+							if st := singleStoreTo(cell); st != nil {
+								arg = st.Val
+							}
+						}
+					}
+					k, isCall := arg.(*ssa.Call)
+					if !isCall || !isCallTo(k, setTx) {
+						continue
+					}
+					bad := ""
+					for _, impl := range c.prodFuncs("boltz") {
+						if impl.Name() != setTx.Name() || impl.Signature.Recv() == nil || impl.Parent() != nil || len(impl.Params) != 2 {
+							continue
+						}
+						for _, r := range returnsOf(impl) {
+							v := r.Results[0]
+							if mi, isMI := v.(*ssa.MakeInterface); isMI {
+								v = mi.X
+							}
+							if v != ssa.Value(impl.Params[0]) {
+								bad = FnName(impl) + " answers with " + describeValue(r.Results[0]) + ", not with the context it was called on"
+							}
+						}
+					}
+					c.Check(bad == "", rule, FnName(inner)+": context handed to fn", c.P.Pos(in.Pos()), "fn runs with what setTx answered, and every setTx answers with its own context", "fn runs with the context setTx answered with, and "+bad+": a transaction opened with a system context runs the caller's function, the pre-commit actions and the listeners with an ordinary context, so operations on system entities are refused")
+				}
+			}
 		}
 		check("setTx before fn", isSetTx, isFnCall, "ctx.setTx(tx) precedes fn(ctx) on every path", "fn(ctx) is reachable before ctx.setTx(tx)")
 		check("fn before pre-commit", isFnCall, isRunPre, "fn(ctx) precedes runPreCommitActions on every path", "runPreCommitActions is reachable without fn(ctx)")
